@@ -2,6 +2,14 @@
 """Write seeded/README.md from seeded/*/meta.json (the records tools/seedtest.py leaves)."""
 import glob, json, os
 HERE = os.path.dirname(os.path.dirname(os.path.abspath(__file__)))
+NOTES = {
+ 'C01-1': 'get_date parses the microsecond field through float(): CrossHair cannot decide float parsing of symbolic text, '
+          'and the date menu of C01-K2 happens not to hold one of the ~1.2% affected microsecond values (outside: stated)',
+ 'C01-2': 'categorical columns are outside the symdf double (stated under C01 "outside the claim")',
+ 'C06-2': 'index alignment of a real pandas Series is outside the symdf double (no index semantics); the change also uses '
+          'pd.Series, which the double reports as unsupported -> inconclusive, not a violation',
+ 'C11-2': 'needs chardet to mis-detect an encoding: chardet and real encodings are outside (stated)',
+}
 rows = []
 for f in sorted(glob.glob(os.path.join(HERE, 'seeded', '*', 'meta.json'))):
     d = json.load(open(f))
@@ -26,6 +34,6 @@ out.append('\n%d of %d confirmed changes are reported by the quick check of thei
 out.append('\nMisses and why (see DESIGN.md section 6):')
 for r in rows:
     if r[2] != 'caught':
-        out.append('* %s - %s' % (r[0], NOTES.get(r[0], 'see meta.json')) if False else '* %s' % r[0])
+        out.append('* %s - %s' % (r[0], NOTES.get(r[0], 'not yet analysed')))
 open(os.path.join(HERE, 'seeded', 'README.md'), 'w').write('\n'.join(out) + '\n')
 print('\n'.join(out[-6:]))
